@@ -60,16 +60,40 @@ Definition accept (c : config) (ms : sstate) (o : op) (r : out) : sstate + N :=
   else inl {| m_prev := o_sessions r; m_acc := acc |}.
 
 (* ---- the property stated directly on runs of the Model (used by Props/C04.v) ---- *)
-(* state after a history of frames; output of one more frame; all outputs of a history *)
-Definition exec (c : config) (ops : list op) : state :=
-  fold_left (fun st o => fst (fst (step c st o))) ops (init c).
-Definition out_at (c : config) (ops : list op) (o : op) : out := snd (fst (step c (exec c ops) o)).
-Fixpoint outs_from (c : config) (st : state) (ops : list op) : list out :=
+(* state after a history of frames; output of one more frame; all outputs of a history.
+   [g] selects the repairs; the unindexed names are the code as it is now. *)
+Definition exec_g (g : gates) (c : config) (ops : list op) : state :=
+  fold_left (fun st o => fst (fst (step_g g c st o))) ops (init c).
+Definition out_at_g (g : gates) (c : config) (ops : list op) (o : op) : out :=
+  snd (fst (step_g g c (exec_g g c ops) o)).
+Fixpoint outs_from (g : gates) (c : config) (st : state) (ops : list op) : list out :=
   match ops with
   | [] => []
-  | o :: tl => snd (fst (step c st o)) :: outs_from c (fst (fst (step c st o))) tl
+  | o :: tl => snd (fst (step_g g c st o)) :: outs_from g c (fst (fst (step_g g c st o))) tl
   end.
-Definition outs (c : config) (ops : list op) : list out := outs_from c (init c) ops.
+Definition outs_g (g : gates) (c : config) (ops : list op) : list out := outs_from g c (init c) ops.
+
+Definition exec := exec_g gates_on.
+Definition out_at := out_at_g gates_on.
+Definition outs := outs_g gates_on.
 
 (* session (creation index) k had an accept event in one of these step outputs *)
 Definition accepted_in (c : config) (rs : list out) (k : N) : Prop := exists r, In r rs /\ In k (accepts c r).
+
+(* the clauses, for a choice of repairs *)
+Definition established_after_auth (g : gates) : Prop := forall c ops o s,
+  In s (o_sessions (out_at_g g c ops o)) -> s_state s = StEstablished ->
+  accepted_in c (outs_g g c (ops ++ [o])) (s_inst s).
+Definition ipcp_ack_after_auth (g : gates) : Prop := forall c ops o f sid,
+  In f (o_frames (out_at_g g c ops o)) -> ef_is ProtoIPCP 2 f = Some sid ->
+  exists s, In s (o_sessions (out_at_g g c ops o)) /\ s_id s = sid /\
+            accepted_in c (outs_g g c (ops ++ [o])) (s_inst s).
+Definition clientip_after_auth (g : gates) : Prop := forall c ops o s,
+  In s (o_sessions (out_at_g g c ops o)) -> s_ip s <> None ->
+  accepted_in c (outs_g g c (ops ++ [o])) (s_inst s).
+Definition mac_ownership (g : gates) : Prop := forall c ops o s,
+  In s (st_sessions (exec_g g c ops)) -> s_mac s <> op_src o ->
+  In s (st_sessions (exec_g g c (ops ++ [o]))).
+(* what the harness compares is the state: the table shown after a frame is the table *)
+Definition snapshot_is_table (g : gates) : Prop := forall c ops o,
+  o_sessions (out_at_g g c ops o) = st_sessions (exec_g g c (ops ++ [o])).
